@@ -113,6 +113,7 @@ type FindingObs struct {
 	HasAdv    bool
 	HasID     bool
 	Title     string
+	Adv       string
 	Extra     string
 	Detectors []string
 }
@@ -274,13 +275,14 @@ func execute(cfg *Config) (obs *Obs) {
 		if f.Adv != nil {
 			fo.HasAdv = true
 			fo.Title = f.Adv.Title
+			fo.Adv = advisoryString(f.Adv)
 			if f.Adv.ID != nil {
 				fo.HasID = true
 				fo.Ref = f.Adv.ID.Reference
 			}
 		}
 		obs.RawFindings = append(obs.RawFindings, fo)
-		obs.Findings = append(obs.Findings, fmt.Sprintf("%s|%s|%s|%s", fo.Ref, fo.Title, fo.Extra, strings.Join(fo.Detectors, ",")))
+		obs.Findings = append(obs.Findings, fmt.Sprintf("%s|%s|%s|%s", fo.Ref, fo.Adv, fo.Extra, strings.Join(fo.Detectors, ",")))
 	}
 	for _, s := range res.PluginStatus {
 		so := StatusObs{Name: s.Name, Version: s.Version}
